@@ -113,6 +113,8 @@ def run_F(scn: Dict[str, Any], on, plugins=()) -> Dict[str, Any]:
                     O.after_advance()
             elif k == "query":
                 O.query(op)
+            elif k == "moments":
+                O.check_moments()
             elif k in ("vol", "drift", "corr", "uncorr", "shock"):
                 O.before_change(now)
                 mid = op["m"] % n
@@ -346,6 +348,34 @@ class FundOracle:
                 b = m.get_fundamental_price(s)
                 if a != b:
                     self.mon.viol("C12", "history_changed", {"market": i, "time": s, "market_recorded": b, "fundamentals_object_reads": a})
+
+    def check_moments(self):
+        """supplementary sample-moment check with the real generator: fixed sample size, 7-sigma bounds
+        (false-alarm probability < 1e-10 per comparison; DESIGN.md 3.5)."""
+        mon = self.mon
+        cols = [m.get_fundamental_prices() for m in self.sim.markets]
+        T = len(cols[0]) - 1
+        if T < 1000:
+            return
+        R = np.log(np.asarray([c[1:] for c in cols]) / np.asarray([c[:-1] for c in cols]))
+        for i in range(self.n):
+            mu, sd = float(R[i].mean()), float(R[i].std(ddof=1))
+            v = self.vol[i]
+            if v == 0.0:
+                continue
+            if abs(mu - self.drift[i]) > 7 * v / math.sqrt(T):
+                mon.viol("C12", "sample_mean_off", {"market": i, "mean": mu, "drift": self.drift[i], "vol": v, "T": T})
+            if abs(sd - v) > 7 * v / math.sqrt(2 * T):
+                mon.viol("C12", "sample_std_off", {"market": i, "std": sd, "vol": v, "T": T})
+        for a in range(self.n):
+            for b in range(a + 1, self.n):
+                if self.vol[a] == 0.0 or self.vol[b] == 0.0:
+                    continue
+                rho = self.corr.get((a, b), 0.0)
+                got = float(np.corrcoef(R[a], R[b])[0, 1])
+                if abs(math.atanh(max(-0.999999, min(0.999999, got))) - math.atanh(rho)) > 7 / math.sqrt(T - 3):
+                    mon.viol("C12", "sample_correlation_off", {"pair": [a, b], "got": got, "want": rho, "T": T})
+        mon.probe("moments_checked")
 
     def finish(self):
         self.check_history("end")
